@@ -3,7 +3,9 @@ Spec: MVN.tla (__getitem__ as an exact function on labelled tensors, + PyIndex.t
 algebra of log_prob, arithmetic / expand / unsqueeze / add_jitter as maps on (mean, covariance)).
 Replay: (a) every enumerated index expression on real distributions whose covariance has unique integer entries, for every
 covariance representation, exact label decoding, and log_prob of the result at the end of every chain (density_check: both paths,
-fresh and after the indexed distribution's Cholesky factor was needed); (b) the numeric part lives in c10_numeric.py."""
+fresh and after the indexed distribution's Cholesky factor was needed); (b) the numeric part lives in c10_numeric.py; (c) MVNReads.tla
+(reads are pure: histories of observations on one object, for every kind of root of a root-form covariance and every variance class
+around settings.min_variance) is replayed by c10_reads.py."""
 import os
 
 from harness import core, tlc
@@ -366,7 +368,12 @@ def run(ck):
                "0-dim tensor, omitted default}, expand (incl. to the same shape), unsqueeze, sums of MVNs, each on a fresh operand and (lazy) on one whose Cholesky "
                "factor was needed before; every result is compared on mean AND covariance AND log_prob on both paths (values drawn around the expected "
                "distribution); the result at the end of every index chain additionally on log_prob (both paths, fresh and after a Cholesky-path log_prob of "
-               "the whole); non-trivial = some batch shape involved is non-empty. distinct = distinct abstract case")
+               "the whole); non-trivial = some batch shape involved is non-empty. read histories (MVNReads.tla) = every sequence of 2 (thorough: 3) "
+               "observations out of {mean, variance, stddev, confidence_region, covariance_matrix, scale_tril, precision_matrix, log_prob fast / Cholesky, "
+               "rsample(base_samples), entropy, X + c, X * 2, X[..., 1:], expand, unsqueeze} on ONE object x representation {dense, lazy, diag, root form with a "
+               "lower-triangular / upper-triangular / symmetric / rotated square root, n x k root with k > n and k < n} x smallest marginal variance {below, at, "
+               "just above settings.min_variance, ordinary} x batch shape; every observation at every position is compared with the reference function of the "
+               "constructed (mean, K) (entrywise relative), then the caller's tensors bitwise and the stored (mean, K). distinct = distinct abstract case")
     ck.assumptions = [
         "index tensors are 1-d LongTensors in adjacent positions, at most one ellipsis, positive steps (the forms whose meaning numpy and torch share, PyIndex.tla)",
         "index tensors in batch positions have pairwise distinct entries (a repeated batch element is 'the same variable twice' for the labels but 'an independent "
@@ -375,11 +382,16 @@ def run(ck):
         "covariance between its components is 0",
         "for an empty selection (a zero-size dimension) only shapes are compared (densifying an empty DiagLinearOperator slice divides by zero inside linear_operator)",
         "the mean / covariance of a distribution are compared after expansion to batch_shape + event_shape (a LinearOperator-constructed distribution stores them unexpanded)",
-        "variances of the constructed distributions are >= 0.05, so settings.min_variance never clamps; the variance of a product with a 0-adjacent scalar "
+        "index / numeric cases: variances of the constructed distributions are >= 0.05, so settings.min_variance never clamps; the variance of a product with a 0-adjacent scalar "
         "(below 1e-4) is not compared (mean, covariance and log_prob are)",
         "a 0-dim tensor as scalar, number * X (no __rmul__) and 0 * X (degenerate) may be rejected: such a case must raise or be right; X / 0 is outside the domain",
         "log_prob of an index result is compared only when the expected marginal covariance has condition number <= 1e4 (a repeated component makes it singular)",
         "'sample moments converge to mean and covariance' is statistical and is not checked; rsample is checked through base_samples only",
+        "read histories: a marginal variance below settings.min_variance is REPORTED by variance / stddev / confidence_region as min_variance (the documented "
+        "rounding, NumericalWarning); covariance_matrix, log_prob, rsample, KL and every derived distribution keep the constructed covariance",
+        "read histories: for the rank-deficient root form (n x k, k < n) the covariance is singular: density-based quantities (log_prob, scale_tril, "
+        "precision_matrix, entropy) are taken as part of the history but not compared; mean, variance, covariance, rsample and purity are",
+        "'the caller's tensors are left untouched' is compared bitwise on the tensors handed to the constructor (mean; dense covariance / diagonal / root)",
     ]
     ck.exhaustive = True
     wd = os.path.join(tlc.BUILD, PID)
@@ -401,17 +413,19 @@ def run(ck):
     groups["predicted"] = [c for c in cfgs if c["predicted"]]
     for name, cs in groups.items():
         mod, cfg = write_mc(os.path.join(wd, "mc"), name, cs)
-        jobs.append(((mod, cfg), dict(name=PID + "/run_" + name, timeout=3000, dump=True, check=False, workers=3, heap="4g", extra=["-continue"])))
+        jobs.append(((mod, cfg), dict(name=PID + "/run_" + name, timeout=3000, dump=True, check=False, workers=3, heap="2g", extra=["-continue"])))
         meta.append((name, cs))
     # the same cells under the repaired model (documents what a repair has to change; decides which variant the tree matches)
     mod, cfg = write_mc(os.path.join(wd, "mc"), "predicted_fixed", groups["predicted"], variant="fixed")
-    jobs.append(((mod, cfg), dict(name=PID + "/run_predicted_fixed", timeout=3000, check=False, workers=2, heap="3g", extra=["-continue"])))
+    jobs.append(((mod, cfg), dict(name=PID + "/run_predicted_fixed", timeout=3000, check=False, workers=2, heap="2g", extra=["-continue"])))
     meta.append(("predicted_fixed", None))
-    from checks import c10_numeric
+    from checks import c10_numeric, c10_reads
     njobs, nmeta = c10_numeric.tlc_jobs(wd, thorough)
-    # (the MVNOps runs go first: they are short, and their replay can only start when everything is back)
-    results = tlc.run_many(njobs + jobs, parallel=min(8, core.NPROC))
-    results = results[len(njobs):] + results[:len(njobs)]
+    rjobs, rmeta = c10_reads.tlc_jobs(wd, thorough)
+    # (the MVNOps / MVNReads runs go first: they are short, and their replay can only start when everything is back)
+    results = tlc.run_many(njobs + rjobs + jobs, parallel=min(8, core.NPROC))
+    results_r = results[len(njobs):len(njobs) + len(rjobs)]
+    results = results[len(njobs) + len(rjobs):] + results[:len(njobs)]
     dumps, tlc_pred = [], {}
     for (name, cs), res in zip(meta, results[:len(jobs)]):
         ck.add_tlc(res, name)
@@ -448,6 +462,7 @@ def run(ck):
                    "index tensors in batch positions zipped with an index tensor in the last position; LinearOperator-constructed distributions whose mean and "
                    "covariance batch shapes differ")
     c10_numeric.run(ck, nmeta, results[len(jobs):])
+    c10_reads.run(ck, rmeta, results_r)
 
 
 def report_variant(ck, spec, pinned, fixed, nfail, what):
@@ -468,6 +483,9 @@ def report_variant(ck, spec, pinned, fixed, nfail, what):
 def replay(rep):
     torch = core.setup_torch()
     case = rep["case"]
+    if case.get("kind") == "reads":
+        from checks import c10_reads
+        return c10_reads.replay(rep)
     if case.get("kind") != "index":
         from checks import c10_numeric
         return c10_numeric.replay(rep)
